@@ -272,6 +272,40 @@ M('C05', 'parse-halg-pubalg-swapped', PK, "        self.pubalg = packet[0]\n    
 M('C05', 'halg-setter-maps-unknown', PK, "        except ValueError:  # pragma: no cover\n            self._halg = val\n\n    @property\n    def signature(self):", "        except ValueError:  # pragma: no cover\n            self._halg = HashAlgorithm.SHA256\n\n    @property\n    def signature(self):", 'C05.5')
 M('C05', 'type-getter-masks', PGP, "        return self._signature.sigtype\n", "        return SignatureType(self._signature.sigtype & 0x7F)\n", 'C05.5')
 
+SIGN_TAIL = ("        sigdata = sig.hashdata(subject)\n        h2 = sig.hash_algorithm.hasher\n        h2.update(sigdata)\n        sig._signature.hash2 = bytearray(h2.digest()[:2])\n\n"
+             "        _sig = self._key.sign(sigdata, getattr(hashes, sig.hash_algorithm.name)())\n        if _sig is NotImplemented:\n            raise NotImplementedError(self.key_algorithm)\n\n"
+             "        sig._signature.signature.from_signer(_sig)\n        sig._signature.update_hlen()\n\n        return sig\n")
+T('C02', 'twin-sign-tail-aliases', PGP, SIGN_TAIL,
+  "        packet = sig._signature\n        halg = sig.hash_algorithm\n        tbs = sig.hashdata(subject)\n        hasher = halg.hasher\n        hasher.update(tbs)\n        left16 = hasher.digest()[:2]\n        packet.hash2 = bytearray(left16)\n\n"
+  "        hash_object = getattr(hashes, halg.name)()\n        raw_signature = self._key.sign(tbs, hash_object)\n        if raw_signature is NotImplemented:\n            raise NotImplementedError(self.key_algorithm)\n\n"
+  "        packet.signature.from_signer(raw_signature)\n        packet.update_hlen()\n        return sig\n")
+T('C02', 'twin-sign-tail-guard-inverted', PGP, "        if _sig is NotImplemented:\n            raise NotImplementedError(self.key_algorithm)\n\n        sig._signature.signature.from_signer(_sig)\n        sig._signature.update_hlen()\n\n        return sig\n",
+  "        if _sig is not NotImplemented:\n            sig._signature.signature.from_signer(_sig)\n            sig._signature.update_hlen()\n            return sig\n        raise NotImplementedError(self.key_algorithm)\n")
+T('C02', 'twin-sign-subpackets-alias', PGP, "        if policy_uri is not None:\n            sig._signature.subpackets.addnew('Policy', hashed=True, uri=policy_uri)\n", "        area = sig._signature.subpackets\n        if policy_uri is not None:\n            area.addnew('Policy', hashed=True, uri=policy_uri)\n")
+T('C02', 'twin-sign-new-helper', PGP, "        sig = PGPSignature.new(sig_type, self.key_algorithm, hash_algo, self.fingerprint.keyid, created=prefs.pop('created', None))\n\n        return self._sign(subject, sig, **prefs)\n\n    @KeyAction(KeyFlags.Certify, is_unlocked=True, is_public=False)\n    def certify(",
+  "        sig = self._blank_signature(sig_type, hash_algo, prefs.pop('created', None))\n\n        return self._sign(subject, sig, **prefs)\n\n    def _blank_signature(self, sigtype, halg, created):\n        keyid = self.fingerprint.keyid\n        return PGPSignature.new(sigtype, self.key_algorithm, halg, keyid, created=created)\n\n    @KeyAction(KeyFlags.Certify, is_unlocked=True, is_public=False)\n    def certify(")
+T('C02', 'twin-sign-type-ifexp', PGP, "        sig_type = SignatureType.BinaryDocument\n        hash_algo = prefs.pop('hash', None)\n\n        if subject is None:\n            sig_type = SignatureType.Timestamp\n",
+  "        hash_algo = prefs.pop('hash', None)\n        sig_type = SignatureType.Timestamp if subject is None else SignatureType.BinaryDocument\n")
+T('C02', 'twin-new-keywords', PGP, "        sig = PGPSignature.new(SignatureType.DirectlyOnKey, self.key_algorithm, hash_algo, self.fingerprint.keyid, created=prefs.pop('created', None))",
+  "        created = prefs.pop('created', None)\n        sig = PGPSignature.new(sigtype=SignatureType.DirectlyOnKey, pkalg=self.key_algorithm, halg=hash_algo, signer=self.fingerprint.keyid, created=created)")
+T('C02', 'twin-bind-demorgan', PGP, "        if self.is_primary and not key.is_primary:\n            sig_type = SignatureType.Subkey_Binding\n\n        elif key.is_primary and not self.is_primary:\n            sig_type = SignatureType.PrimaryKey_Binding\n\n        else:  # pragma: no cover\n            raise PGPError\n",
+  "        if self.is_primary == key.is_primary:  # pragma: no cover\n            raise PGPError\n        if self.is_primary:\n            sig_type = SignatureType.Subkey_Binding\n        else:\n            sig_type = SignatureType.PrimaryKey_Binding\n")
+T('C02', 'twin-sigv4-writer-join', PK, "        _bytes = bytearray()\n        _bytes += super(Signature, self).__bytearray__()\n        _bytes += self.int_to_bytes(self.sigtype)\n        _bytes += self.int_to_bytes(self.pubalg)\n        _bytes += self.int_to_bytes(self.halg)\n        _bytes += self.subpackets.__bytearray__()\n        _bytes += self.hash2\n        _bytes += self.signature.__bytearray__()\n\n        return _bytes",
+  "        header = super(Signature, self).__bytearray__()\n        algs = bytearray([self.sigtype, self.pubalg, self.halg])\n        return bytearray(b''.join([header, algs, self.subpackets.__bytearray__(), self.hash2, self.signature.__bytearray__()]))")
+T('C02', 'twin-canonical-bytes-oneshot', PK, "        _hdr = bytearray()\n        _hdr += b'\\x88'\n        _hdr += self.int_to_bytes(len(_body), minlen=4)\n        return _hdr + _body", "        return bytearray(b'\\x88') + self.int_to_bytes(len(_body), 4) + _body")
+T('C02', 'twin-eddsa-sig-loop', FL, "        siglen = (EllipticCurveOID.Ed25519.key_size + 7) // 8\n        return self.int_to_bytes(self.r, siglen) + self.int_to_bytes(self.s, siglen)",
+  "        width = (EllipticCurveOID.Ed25519.key_size + 7) // 8\n        out = bytearray()\n        for value in (self.r, self.s):\n            out += self.int_to_bytes(value, width)\n        return out")
+T('C02', 'twin-rsa-sig-strip-temp', FL, "        return self.md_mod_n.to_mpibytes()[2:]", "        mpi = self.md_mod_n.to_mpibytes()\n        del mpi[:2]\n        return mpi")
+T('C02', 'twin-ecdsa-from-signer-index', FL, "        seq, _ = decoder.decode(sig)\n        self.r = MPI(seq[0])\n        self.s = MPI(seq[1])", "        decoded = decoder.decode(sig)[0]\n        r, s = decoded[0], decoded[1]\n        self.r, self.s = MPI(r), MPI(s)")
+T('C02', 'twin-signature-writer-comprehension', FL, "        _bytes = bytearray()\n        for i in self:\n            _bytes += i.to_mpibytes()\n        return _bytes\n\n    @abc.abstractproperty\n    def __sig__(self):", "        return bytearray(b''.join(mpi.to_mpibytes() for mpi in self))\n\n    @abc.abstractproperty\n    def __sig__(self):")
+T('C02', 'twin-hasher-getter-temp', CO, "    def hasher(self):\n        return hashlib.new(self.name)", "    def hasher(self):\n        name = self.name\n        return hashlib.new(name)")
+T('C02', 'twin-key-hashdata-temp', PGP, "        pub = self._key if self.is_public else self._key.pubkey()\n", "        if self.is_public:\n            pub = self._key\n        else:\n            pub = self._key.pubkey()\n")
+M('C02', 'bind-signs-self', PGP, "        return self._sign(key, sig, **prefs)\n\n    def is_considered_insecure", "        return self._sign(self, sig, **prefs)\n\n    def is_considered_insecure", 'C02.1c')
+M('C02', 'sign-tail-hash2-before-subpackets-final', PGP, "        if prefs.pop('include_issuer_fingerprint', True):\n            if isinstance(self._key, PrivKeyV4):\n                sig._signature.subpackets.addnew('IssuerFingerprint', hashed=True, _version=4, _issuer_fpr=self.fingerprint)\n\n        sigdata = sig.hashdata(subject)\n",
+  "        sigdata = sig.hashdata(subject)\n        if prefs.pop('include_issuer_fingerprint', True):\n            if isinstance(self._key, PrivKeyV4):\n                sig._signature.subpackets.addnew('IssuerFingerprint', hashed=True, _version=4, _issuer_fpr=self.fingerprint)\n\n", 'C02.2')
+M('C02', 'eddsa-sig-r-width-short', FL, "        return self.int_to_bytes(self.r, siglen) + self.int_to_bytes(self.s, siglen)", "        return self.int_to_bytes(self.r) + self.int_to_bytes(self.s, siglen)", 'C02.4')
+M('C02', 'sigv4-writer-drops-hash2', PK, "        _bytes += self.subpackets.__bytearray__()\n        _bytes += self.hash2\n        _bytes += self.signature.__bytearray__()\n\n        return _bytes", "        _bytes += self.subpackets.__bytearray__()\n        _bytes += self.signature.__bytearray__()\n\n        return _bytes", 'C02.5')
+
 # =============================================================================================== C07
 M('C07', 'pubkey-iterates-mpis', PK, "        for pm in self.keymaterial.__pubfields__:\n            setattr(pk.keymaterial, pm, copy.copy(getattr(self.keymaterial, pm)))", "        for pm in self.keymaterial.__mpis__:\n            setattr(pk.keymaterial, pm, copy.copy(getattr(self.keymaterial, pm)))", 'C07.1')
 M('C07', 'pubkey-builds-private', PK, "        pk = PubKeyV4() if not isinstance(self, PrivSubKeyV4) else PubSubKeyV4()", "        pk = PrivKeyV4() if not isinstance(self, PrivSubKeyV4) else PrivSubKeyV4()", 'C07.1')
